@@ -261,3 +261,13 @@ Definition fe_turns (angle tol rest thr : Q) : option Z :=
   else if fe_ok angle tol rest thr (k + 1) then Some (k + 1)%Z
   else if fe_ok angle tol rest thr (k - 1) then Some (k - 1)%Z
   else None.
+
+(* ----------------------------------- 5. allowance as a function of the angle *)
+(* What the front end may cost for the double `angle`, in radians (proved in
+   Proofs/AngleFloatProofs.v: C19_front_general): 2^-49 + 2^-50 for the roundings of
+   r + 2*np.pi (negative angles), of / np.pi and of tol / np.pi and for pi - np.pi
+   on the reduced angle, plus 2^-51 >= 2 * (pi - np.pi) for every whole turn removed
+   by `%` (the recorded finding: the error grows with |angle|). *)
+Definition TURN_ALLOW : Q := pow2 (-51).
+Definition allow (angle : Q) : Q :=
+  FE_ALLOW + pow2 (-50) + inject_Z (Z.abs (turns angle)) * TURN_ALLOW.
